@@ -65,7 +65,7 @@ func obligationText(o *Obligation, models bool) string {
 		sb.WriteString("(set-option :produce-models true)\n")
 	}
 	sb.WriteString("(set-logic ALL)\n")
-	sb.WriteString(o.vc.Text(o.BodyLen, o.Goal))
+	sb.WriteString(o.vc.TextSkip(o.BodyLen, o.Goal, o.Skip))
 	if o.ExpectSat {
 		sb.WriteString("(assert " + o.Goal + ")\n")
 	} else {
